@@ -104,6 +104,13 @@ def handle (j : Json) : Except String Json := do
       -- validate keeps x; py2sql writes quantize x; sql2py quantizes what it reads again
       pure (Json.mkObj [("validated", jDec x), ("stored", jDec (quantize sc x)), ("loaded", jDec (quantize sc (quantize sc x)))])
     | _ => throw s!"store: unknown type {ty}"
+  | "td2str" =>
+    let t : TDelta := ⟨← argInt j "days", ← argNat j "seconds", ← argNat j "us"⟩
+    let txt := timedelta2str t
+    pure (Json.mkObj [("text", cpJson txt), ("back", match str2timedelta txt with | some v => jInt v | none => .null), ("micros", jInt t.micros)])
+  | "str2td" =>
+    let cps ← natList (← j.getObjVal? "s")
+    pure (Json.mkObj [("ok", match str2timedelta (cps.map Char.ofNat) with | some v => jInt v | none => .null)])
   | "load" =>
     let ty ← argStr j "type"
     let s ← sqlOfJson (← j.getObjVal? "sql")
